@@ -10,6 +10,7 @@ import (
 	"encoding/json"
 	"fmt"
 	"os"
+	"reflect"
 	"strings"
 	"unsafe"
 )
@@ -193,6 +194,10 @@ func U32sAt(u uintptr, n int) []uint32 {
 
 // PtrTokenOf returns the address token of any pointer.
 func PtrTokenOf(p any) uintptr { return 0 }
+
+// InnerPtr returns the address of the first field of the struct p points to (Go: the same
+// address as p itself; the interpreter keeps them apart), e.g. &conn.conn for a *net.UnixConn.
+func InnerPtr(p any) unsafe.Pointer { return reflect.ValueOf(p).UnsafePointer() }
 
 // Outputs collects values reported by selftest harnesses during a native run.
 var Outputs = map[string]string{}
